@@ -45,6 +45,10 @@ SOURCES = [
     "@constexpr\ndef k(a):\n    raise ValueError('no')\ndb.Setting = k(1)\n",          # constexpr evaluations that fail
     "@constexpr\ndef k(a):\n    return undefined_name + a\ndb.On = 1\ndb.Setting = k(2)\n",
     "@constexpr\ndef k(a):\n    return [a]\ndb.Setting = k(1)\n",
+    # constexpr results that are containers: iterated and indexed with a run-time value (jump table for 6+ elements)
+    "@constexpr\ndef tab(n):\n    return [i * i + 1 for i in range(n)]\nT = tab(7)\nfor v in T:\n    db.Setting = v\ndb.On = T[db.Mode]\n",
+    "@constexpr\ndef tab(n):\n    return [i + 2 for i in range(n)]\nT = tab(9)\nx = 0\nfor v in T:\n    x = x + v\ndb.Setting = x\ndb.On = T[db.Mode]\nd0.On = T[d0.Mode]\n",
+    "@constexpr\ndef tab(n):\n    return [3 * i for i in range(n)]\nT = tab(4)\nfor v in T:\n    db.Setting = v\ndb.On = T[db.Mode]\n",
 ]
 DICT_SOURCES = [
     {"": "from library import m\n# pytrapic: compact, remove-labels\ndb.Setting = m.g(db.On)\ndb.On = m.g(2)\n", "m": "def g(a):\n    return a + LogicType.On\n"},
@@ -192,7 +196,7 @@ def run(tier: str, seed: int) -> int:
     # same request again in the same process must give the same result (first occurrence vs later ones)
     first = {}
     for hi, ri, key, res in in_process:
-        if key in first and first[key][2] != res:
+        if key in first and first[key][2] != res and "Timeout during evaluating constexpr" not in json.dumps([first[key][2], res]):
             failures.append({"what": f"the same request gives a different result later in the same process (history {first[key][0]} request {first[key][1]} vs history {hi} request {ri})",
                              "history": histories[hi][:ri + 1], "first": first[key][2], "later": res})
         first.setdefault(key, (hi, ri, res))
@@ -214,6 +218,10 @@ def run(tier: str, seed: int) -> int:
         if "fresh_process_failed" in f:
             raise common.Infra("fresh interpreter failed: " + f["fresh_process_failed"])
         hi, ri, res = first[k]
+        if "Timeout during evaluating constexpr" in json.dumps(res):
+            # the in-process compile itself ran into the 1 s child timeout (machine load): not comparable
+            chk.bump("in_process_constexpr_timeouts_skipped")
+            continue
         if f != res:
             src = distinct[k]["src"]
             if isinstance(src, dict) and len(src) > 2 and "F-C11-b" in known_ids:
